@@ -1,6 +1,7 @@
 package main
 
 import (
+	"go/token"
 	"golang.org/x/tools/go/ssa"
 	"strings"
 )
@@ -97,6 +98,87 @@ func checkC08(p *Prog, r *Report) {
 	}
 	r.floor("E3.hashframe", 10)
 	p.depsAccessorUnfiltered(r, "E2.dependencies-hashed-unfiltered", rh)
+	p.hashedCommandIsExecutedCommand(r, rh)
+	p.inputGroupsConcatenated(r)
+}
+
+// hashedCommandIsExecutedCommand: which of a target's per-config commands applies is decided by
+// BuildTarget.GetCommand / GetTestCommand (active config, fallback config, then the highest config name). The rule
+// hash must take the command from those accessors, not from a selection of its own, or it hashes a command other than
+// the one that runs.
+func (p *Prog) hashedCommandIsExecutedCommand(r *Report, rh *ssa.Function) {
+	rule := "E7.hashed-command-is-executed-command"
+	for _, acc := range []string{"GetCommand", "GetTestCommand"} {
+		found := false
+		eachInstr(rh, true, func(_ *ssa.Function, i ssa.Instruction) {
+			if a, ok := hashWriteArg(i); ok && tagsOf(a, SliceOpts{})["call:(*core.BuildTarget)."+acc] {
+				found = true
+			}
+		})
+		r.check(found, rule, "the rule hash covers the result of "+acc, p.pos(rh.Pos()), fnName(rh), "a hash write takes target."+acc+"(state)", "the rule hash no longer takes the command from BuildTarget."+acc+", the accessor the build step uses to pick the command it runs: for a per-config command dict the hashed command can differ from the executed one (e.g. no entry for the active or fallback config), and editing the executed command leaves the hash unchanged")
+	}
+	// and nothing in package build selects from the per-config maps on its own
+	n := 0
+	for _, f := range p.Funcs("build") {
+		eachInstr(f, false, func(_ *ssa.Function, i ssa.Instruction) {
+			lk, ok := i.(*ssa.Lookup)
+			if !ok {
+				return
+			}
+			tg := tagsOf(lk.X, SliceOpts{StopAtCall: func(*ssa.Call) bool { return true }})
+			if tg["core.BuildTarget.Commands"] || tg["core.TestFields.Commands"] {
+				n++
+				r.bad(rule, "package build selects a per-config command itself", p.pos(lk.Pos()), fnName(f), "a lookup in target.Commands outside BuildTarget.GetCommand: the selection rule is duplicated and can disagree with the one the build uses")
+			}
+		})
+	}
+	if n == 0 {
+		r.ok(rule, "only BuildTarget selects from the per-config command maps", "-", "", "no lookup in Commands in package build")
+	}
+}
+
+// inputGroupsConcatenated: the rule hash writes the flat list of inputs (AllSources/AllTools/...) and, for the named
+// groups, only their names and sizes; group membership is recoverable from that only while the flat list is the plain
+// concatenation of the unnamed list and the groups in key order. allBuildInputs must therefore append every element of
+// every group (no filtering or de-duplication).
+func (p *Prog) inputGroupsConcatenated(r *Report) {
+	rule := "E2.input-groups-concatenated"
+	abi := p.Fn("core", "BuildTarget.allBuildInputs")
+	if abi == nil {
+		r.unresolved(rule, "core.BuildTarget.allBuildInputs")
+		return
+	}
+	cond := false
+	var site token.Pos
+	for _, g := range withAnon(abi) {
+		for _, l := range sliceRangeLoops(g) {
+			if !strings.HasSuffix(typeString(l.over.Type()), "core.BuildInput") {
+				continue
+			}
+			if l.iterationSkips(func(i ssa.Instruction) bool {
+				c, ok := i.(*ssa.Call)
+				if !ok {
+					return false
+				}
+				b, ok := c.Call.Value.(*ssa.Builtin)
+				return ok && b.Name() == "append"
+			}) {
+				cond = true
+				site = l.header.Instrs[0].Pos()
+			}
+		}
+	}
+	appends := 0
+	for _, g := range withAnon(abi) {
+		eachInstr(g, false, func(_ *ssa.Function, i ssa.Instruction) {
+			if c, ok := i.(*ssa.Call); ok {
+				if b, ok := c.Call.Value.(*ssa.Builtin); ok && b.Name() == "append" && strings.HasSuffix(typeString(c.Type()), "core.BuildInput") {
+					appends++
+				}
+			}
+		})
+	}
+	r.check(!cond && appends > 0, rule, "allBuildInputs appends every element of every group", p.pos(abi.Pos()), fnName(abi), itoa(appends)+" append(s) of inputs, none conditional on the element", "allBuildInputs drops some inputs (at "+p.pos(site)+"; e.g. one already seen in another group): the rule hash writes this flat list plus only the names and sizes of the groups, so srcs={a:[x,y], b:[x]} and {a:[x,y], b:[y]} hash the same although $SRCS_B differs")
 }
 
 // depsAccessorUnfiltered: the accessor through which the rule hash reads BuildTarget.dependencies must yield an
